@@ -580,6 +580,19 @@ func (s *Sched) Live() []string {
 	return out
 }
 
+// LiveRoles returns name -> role of the tasks that have not exited.
+func (s *Sched) LiveRoles() map[string]string {
+	mu.Lock()
+	defer mu.Unlock()
+	out := map[string]string{}
+	for _, t := range s.all {
+		if !t.exited {
+			out[t.Name] = t.Role
+		}
+	}
+	return out
+}
+
 // NumTasks returns the number of tasks ever created.
 func (s *Sched) NumTasks() int {
 	mu.Lock()
